@@ -50,8 +50,10 @@ type harnessSpec struct {
 	AllowPanic bool
 	ExpectSat  bool // witness: at least one violation expected (vacuity guard)
 	NoMerge    bool
+	LazyAll    bool
 	Reach      []string
 	MaxSteps   int
+	Replace    map[string]string
 }
 
 type item struct {
@@ -277,7 +279,7 @@ func parseValues(s string) ([]int, error) {
 }
 
 func parseSpec(fn *ssa.Function, pkg *ssa.Package, rel string) (*harnessSpec, error) {
-	sp := &harnessSpec{Fn: fn, Pkg: pkg, RelDir: rel, Runs: map[string][][]int{}, Solver: "z3", TimeoutS: 60}
+	sp := &harnessSpec{Fn: fn, Pkg: pkg, RelDir: rel, Runs: map[string][][]int{}, Solver: "z3-new", TimeoutS: 60}
 	for _, p := range fn.Params {
 		sp.Params = append(sp.Params, p.Name())
 	}
@@ -337,8 +339,18 @@ func parseSpec(fn *ssa.Function, pkg *ssa.Package, rel string) (*harnessSpec, er
 			sp.AllowPanic = true
 		case "expect":
 			sp.ExpectSat = len(f) > 1 && f[1] == "sat"
+		case "lazy":
+			sp.LazyAll = true
 		case "nomerge":
 			sp.NoMerge = true
+		case "replace":
+			if len(f) != 3 {
+				return nil, fmt.Errorf("replace needs <function> <harness function>")
+			}
+			if sp.Replace == nil {
+				sp.Replace = map[string]string{}
+			}
+			sp.Replace[f[1]] = f[2]
 		case "reach":
 			sp.Reach = append(sp.Reach, f[1:]...)
 		case "maxsteps":
@@ -414,6 +426,13 @@ func runItem(prog *ssa.Program, it item) (res *itemResult) {
 	ex.HarnessPk = it.H.Pkg
 	ex.AllowPanic = it.H.AllowPanic
 	ex.NoMerge = it.H.NoMerge
+	ex.LazyAll = it.H.LazyAll
+	for k, v := range it.H.Replace {
+		if !strings.Contains(k, ".") {
+			k = it.H.Pkg.Pkg.Path() + "." + k
+		}
+		ex.ReplaceByGo[k] = v
+	}
 	if it.H.MaxSteps > 0 {
 		ex.MaxSteps = it.H.MaxSteps
 	}
